@@ -249,6 +249,8 @@ pub fn readcmp_main(a: &Args) {
                         // CDATA sections and comments) are what the reader loses: compare modulo whitespace
                         J::String(s) if s.chars().any(|c| c.is_whitespace()) => J::String(s.chars().filter(|c| !c.is_whitespace()).collect()),
                         J::Array(a) => J::Array(a.iter().map(blank_fold).collect()),
+                        // (tag lists travel as base64 blobs, not as element text: left as they are)
+                        J::Object(o) if o.get("t").map(|t| t == "Tags").unwrap_or(false) => v.clone(),
                         J::Object(o) => J::Object(o.iter().map(|(k, v)| (k.clone(), blank_fold(v))).collect()),
                         other => other.clone(),
                     }
@@ -269,7 +271,14 @@ pub fn readcmp_main(a: &Args) {
                 };
                 let whole_blank = as_text(&m.actual).map(|t| t.is_empty()).unwrap_or(false) && as_text(&m.expected).map(|t| !t.is_empty() && t.chars().all(|c| c.is_whitespace())).unwrap_or(false);
                 let may_be_known = !has_tag("fixed-document") && (pieces_possible || whole_blank);
-                if fmt == "xml" && may_be_known && canon::with_nan_class(nan, || expect::compare(&folded, &dump_folded, false)).is_none() {
+                let folded_res = if fmt == "xml" && may_be_known { Some(canon::with_nan_class(nan, || expect::compare(&folded, &dump_folded, false))) } else { None };
+                if let Some(Some(soft)) = &folded_res {
+                    if soft.kind == "empty-tag-dropped" {
+                        // the other listed reader finding, in the same document
+                        rep.violation(&format!("{}:empty-tag-dropped:Tags{}", prop, sigbase), &format!("an empty tag was dropped at {} ({}.{})", soft.path, soft.class, soft.prop), replay.clone(), json!({"tags": rec["tags"]}));
+                    }
+                }
+                if folded_res.map(|r| r.map(|s| s.kind == "empty-tag-dropped").unwrap_or(true)).unwrap_or(false) {
                     rep.violation(
                         &format!("{}:reader:whitespace-only-text", prop),
                         &format!("a whitespace-only run of element text was dropped at {} ({}.{}): expected {} got {}", m.path, m.class, m.prop, m.expected, m.actual),
